@@ -20,6 +20,7 @@ MCEnter ==
         <<<<"bogus", "raise">>>>, <<<<"all", "explode">>>>, <<<<"empty", "print">>, <<"obsdup", "explode">>>>}
 MCTrig == {"empty", "obsdup", "sampdup", "obsmdsize", "sampmdsize"}
 MCSites == [k \in Kinds |-> IF k = "empty" THEN {"constructor", "filter_inplace", "filter_copy", "update_ids", "collapse"}
+                            ELSE IF k \in {"obsmdsize", "sampmdsize"} THEN {"constructor", "constructor_zero_length_md"}
                             ELSE {"constructor"}]
 MCDepth == Cfg.depth
 MCNest == Cfg.nest
